@@ -33,6 +33,7 @@ type Env struct {
 	atBlock     *ssa.BasicBlock
 	calleeScope bool
 	qdepth      int
+	cbs         map[string]*CallbackSpec // callback kinds of the contract being evaluated (nil: the frame's)
 }
 
 func (fr *frame) specEnv(st *state, extra map[string]T) *Env {
@@ -406,6 +407,9 @@ func (ev *Env) quant(q *EQuant) T {
 
 var atTermRe = regexp.MustCompile(`\(at\.[^\s()]+ [^\s()]+ (?:\([^()]*\)|[^\s()]+) ([^\s()]+)\)`)
 
+var mhasRe = regexp.MustCompile(`\((?:mhas|mval)\.[^\s()]+ [^\s()]+ (?:\([^()]*\)|[^\s()]+) ([^\s()]+)\)`)
+var mapSelRe = regexp.MustCompile(`\(select \(select ([^\s()]+) (?:\([^()]*\)|[^\s()]+)\) ([^\s()]+)\)`)
+
 func autoTriggers(body, v string, letNames map[string]bool) []string {
 	seen := map[string]bool{}
 	var out []string
@@ -420,6 +424,31 @@ func autoTriggers(body, v string, letNames map[string]bool) []string {
 			matches = append(matches, []string{body[pos : pos+loc[1]], body[pos+loc[2] : pos+loc[3]]})
 		}
 		pos += 4
+	}
+	for pos := 0; ; {
+		k := strings.Index(body[pos:], "(mhas.")
+		if k < 0 {
+			break
+		}
+		pos += k
+		if loc := mhasRe.FindStringSubmatchIndex(body[pos:]); loc != nil && loc[0] == 0 {
+			matches = append(matches, []string{body[pos : pos+loc[1]], body[pos+loc[2] : pos+loc[3]]})
+		}
+		pos += 5
+	}
+	// map membership / lookup with the variable as the key: (select (select Dom m) k)
+	for pos := 0; ; {
+		k := strings.Index(body[pos:], "(select (select ")
+		if k < 0 {
+			break
+		}
+		pos += k
+		if loc := mapSelRe.FindStringSubmatchIndex(body[pos:]); loc != nil && loc[0] == 0 {
+			if strings.HasPrefix(body[pos+loc[2]:pos+loc[3]], "Dom_") {
+				matches = append(matches, []string{body[pos : pos+loc[1]], body[pos+loc[4] : pos+loc[5]]})
+			}
+		}
+		pos += 8
 	}
 	for _, m := range matches {
 		if m[1] != v || seen[m[0]] || strings.Contains(m[0], "(ite") {
@@ -756,6 +785,19 @@ func (ev *Env) call(c *ECall) T {
 				t.GT = pt
 			}
 			args = append(args, t)
+		}
+		if id, isID := c.Fun.(*EIdent); isID && (ev.fr != nil || ev.cbs != nil) {
+			cbs := ev.cbs
+			if cbs == nil {
+				cbs = ev.fr.callbacks
+			}
+			if cb := cbs[id.Name]; cb != nil && cb.Kind == "fresh" {
+				pt, ok := unalias(sig.Results().At(0).Type()).Underlying().(*types.Pointer)
+				if !ok {
+					stale("fresh callback must return a pointer")
+				}
+				return vc.applyFreshValue(fv, sig, pt.Elem(), args)
+			}
 		}
 		res := vc.applyFuncValue(fv, sig, args)
 		if len(res) != 1 {
@@ -1199,6 +1241,16 @@ func (ev *Env) builtinSpec(name string, argEs []Expr) (T, bool) {
 		vc.regHeap("G_visits", "(Array Int Int)")
 		a := arg(0)
 		return T{fmt.Sprintf("(select %s %s)", vc.heapGet(ev.st, "G_visits"), a.S), "Int", intT}, true
+	case "count":
+		// count(s, n): number of true entries among s[0..n) of a []bool slice (recursive spec function,
+		// unfolded by fuel-limited triggered axioms)
+		sl, n := arg(0), arg(1)
+		if sl.Sort != "Slice" {
+			stale("count() needs a []bool slice")
+		}
+		vc.declCount()
+		h := vc.heapArr("Bool")
+		return T{fmt.Sprintf("(cntTrue 2 (select %s (s_arr %s)) (s_off %s) %s)", vc.heapGet(ev.st, h), sl.S, sl.S, n.S), "Int", intT}, true
 	case "pow2":
 		vc.decl("pow2f", "(declare-fun pow2f (Int) Int)")
 		vc.decl("pow2f_ax", "(assert (and (= (pow2f 0) 1) (= (pow2f 1) 2) (= (pow2f 2) 4) (= (pow2f 3) 8) (= (pow2f 4) 16) (= (pow2f 8) 256) (= (pow2f 16) 65536) (forall ((k Int)) (! (=> (>= k 0) (and (> (pow2f k) 0) (= (pow2f (+ k 1)) (* 2 (pow2f k))))) :pattern ((pow2f k))))))")
